@@ -3,7 +3,7 @@
 // Records (tab separated, last field = what the implementation did):
 //   id probe  <name>                                                        obs
 //   id compat <go type id> <schema type name> <shape> <sty>                 ok | panic:compat | ..
-//   id gotype <schema type name> <sty> <dm>                                 ok:<shape>|<gv>|<dump> | ..
+//   id gotype <schema type name> <T|R|C> <sty> <dm>                         ok:<shape>|<gv>|<dump> | ..
 //   id wrap   <type id> <shape> <sty> <gv>                                  ok:<type dump>|<repr dump>|same
 //   id build  <type id> <T|R> <shape> <sty> <dm>                            ok:<gv>|<dump> | err:..
 //   id rt     <type id> <cbor|json> <shape> <sty> <gv>                      ok:<gv> | ..
@@ -41,7 +41,7 @@ func runLine(f []string) []string {
 		return []string{f[0], "compat", f[2], f[3], shapeText(g.goType()), styText(st), opCompat(g, st)}
 	case "gotype":
 		st := typeSystem.TypeByName(f[2])
-		return []string{f[0], "gotype", f[2], styText(st), f[4], opBuildGo(st, f[4])}
+		return []string{f[0], "gotype", f[2], f[3], styText(st), f[5], opBuildGo(st, f[3], f[5])}
 	case "wrap":
 		e := typeByID[f[2]]
 		return []string{f[0], "wrap", f[2], shapeText(e.goType()), styText(e.schemaType()), f[5], opWrap(e, "x", f[5])}
@@ -201,7 +201,7 @@ func main() {
 				continue
 			}
 			// drop the recorded observation so that every kind has its input arity
-			ar := map[string]int{"probe": 3, "compat": 6, "gotype": 5, "wrap": 6, "build": 7, "rt": 7, "hist": 3}[f[1]]
+			ar := map[string]int{"probe": 3, "compat": 6, "gotype": 6, "wrap": 6, "build": 7, "rt": 7, "hist": 3}[f[1]]
 			if ar == 0 || len(f) < ar || f[1] == "probe" {
 				continue
 			}
@@ -273,9 +273,15 @@ func generate(rng *lib.Rng, n int, tier string) [][]string {
 	}
 	// Go types inferred from schema types
 	for _, e := range withSchema {
-		v := g.value(e, false, true)
-		if d, ok := viewOf(e, v, "T"); ok {
-			g.add(g.next("g"), "gotype", e.schema, "", d.Text())
+		for _, lvl := range []string{"T", "R", "C"} {
+			v := g.value(e, false, true)
+			src := lvl
+			if lvl == "C" {
+				src = "R"
+			}
+			if d, ok := viewOf(e, v, src); ok {
+				g.add(g.next("g"), "gotype", e.schema, lvl, "", d.Text())
+			}
 		}
 	}
 	// wrap / build / round trip per type
@@ -479,6 +485,20 @@ func corpus(g *gen) {
 	g.add("x4", "wrap", "UKeyed", "", "", "S3 p s61 p i2 z")
 	g.add("x5", "wrap", "EnumS", "", "", "S1 s507572706c65")
 	g.add("x6", "wrap", "AnyBox", "", "", "S1 z")
+	// renames landing on sibling field names: the representation key "Name" belongs to field Id
+	g.add("k1", "wrap", "RenChain", "", "", "S3 i5 s6e s74")
+	g.add("k2", "build", "RenChain", "R", "", "", "m3 k4e616d65 i5 k5469746c65 s6e k74 s74")
+	g.add("k3", "rt", "RenChain", "json", "", "", "S3 i5 s6e s74")
+	g.add("k4", "rt", "RenSwap", "cbor", "", "", "S2 i7 s62")
+	g.add("k5", "build", "RenSwap", "R", "", "", "m2 k42 i7 k41 s62")
+	g.add("k6", "rt", "RenCycle", "cbor", "", "", "S3 z p s6e s74")
+	g.add("k7", "build", "RenCycle", "R", "", "", "m2 k5469746c65 s6e k4964 s74")
+	g.add("k8", "gotype", "RenChain", "C", "", "m3 k4e616d65 i5 k5469746c65 s6e k74 s74")
+	// empty is not null, empty is not absent
+	g.add("z1", "gotype", "NulBytes", "C", "", "m3 k42 b k4c a0 k4f b")
+	g.add("z2", "gotype", "NulBytes", "R", "", "m2 k42 b k4c a0")
+	g.add("z3", "rt", "NulBytes", "cbor", "", "", "S3 p z p z p z")
+	g.add("z4", "rt", "NulBytes", "json", "", "", "S3 z z z")
 	// float32 rounding and overflow on assembly
 	g.add("f1", "build", "Floats", "T", "", "", "m2 k463332 d3fb999999999999a k463634 d3fb999999999999a")
 	g.add("f2", "build", "Floats", "T", "", "", "m2 k463332 d7e37e43c8800759c k463634 d0")
